@@ -225,7 +225,7 @@ package midi
 
 //@ func (Message).GetChannel
 //@ modifies *channel
-//@ ensures [P:C08] is ==> isChannelT(typeOfB(len(m), m[0]))
+//@ ensures [P:C08] is == isChannelT(typeOfB(len(m), m[0]))
 //@ ensures is && channel != nil ==> *channel == (m[0] & 0x0F)
 
 //@ func (Message).GetNoteStart
